@@ -112,6 +112,15 @@ func c11Exec(w *c11World, prog []c11Node) (flat []c11Flat, mustReject bool, ambi
 					flat = append(flat, c11Flat{Method: "HEAD", Path: prefix + n.Path, IDs: all})
 				}
 				w.f.Get(n.Path, w.hs(own)...).Headers("X-K", "v")
+			case "routes-headers":
+				// Routes("GET,POST").Headers(...): the constraint belongs to every method of the call
+				own := ids(n.NH)
+				all := append(append([]int{}, outer...), own...)
+				flat = append(flat, c11Flat{Method: "GET", Path: prefix + n.Path, IDs: all, Hdr: true}, c11Flat{Method: "POST", Path: prefix + n.Path, IDs: all, Hdr: true})
+				if autoHead {
+					ambiguousHead = true
+				}
+				w.f.Routes(n.Path, "GET,POST", w.hs(own)...).Headers("X-K", "v")
 			case "post":
 				own := ids(n.NH)
 				flat = append(flat, c11Flat{Method: "POST", Path: prefix + n.Path, IDs: append(append([]int{}, outer...), own...)})
@@ -373,6 +382,12 @@ func c11FlattenOnly(prog []c11Node) (flat []c11Flat, mustReject, amb bool) {
 				if autoHead {
 					flat = append(flat, c11Flat{Method: "HEAD", Path: prefix + n.Path, IDs: all})
 				}
+			case "routes-headers":
+				all := append(append([]int{}, outer...), ids(n.NH)...)
+				flat = append(flat, c11Flat{Method: "GET", Path: prefix + n.Path, IDs: all, Hdr: true}, c11Flat{Method: "POST", Path: prefix + n.Path, IDs: all, Hdr: true})
+				if autoHead {
+					amb = true
+				}
 			case "post":
 				flat = append(flat, c11Flat{Method: "POST", Path: prefix + n.Path, IDs: append(append([]int{}, outer...), ids(n.NH)...)})
 			case "routes-all9":
@@ -528,6 +543,11 @@ func c11Programs(thorough bool) [][]c11Node {
 			progs = append(progs, []c11Node{lf}, []c11Node{{Kind: "group", Path: "/g", NH: 1, Children: []c11Node{lf}}},
 				[]c11Node{{Kind: "group", Path: "/g", NH: 2, Children: []c11Node{lf, {Kind: "get", Path: "/v", NH: 1}}}}, []c11Node{{Kind: "autohead-on"}, lf})
 		}
+	}
+	// Routes for two methods with header constraints on the returned route (static and dynamic paths)
+	for _, pth := range []string{"/a", "/{x}"} {
+		lf := c11Node{Kind: "routes-headers", Path: pth, NH: 1}
+		progs = append(progs, []c11Node{lf}, []c11Node{{Kind: "group", Path: "/g", NH: 1, Children: []c11Node{lf}}}, []c11Node{lf, {Kind: "get", Path: "/v", NH: 1}}, []c11Node{{Kind: "post", Path: "/v", NH: 1}, lf})
 	}
 	// all nine methods in one Routes call
 	for _, pth := range []string{"/a", "/{x}"} {
